@@ -51,6 +51,10 @@ func (t *transformer) OnRequest(obj public_types.APIStreamI) (actions.ReqLunarAc
 	if err != nil {
 		return nil, fmt.Errorf("failed to prepare request: %w", err)
 	}
+	if transformed.GetParsedURL() == nil {
+		// e.g. a path with an invalid percent-escape ("/%zz"): nothing to rewrite safely
+		return nil, fmt.Errorf("failed to parse the URL of request %s", obj.GetID())
+	}
 	obj.SetRequest(transformed)
 	return &actions.ModifyRequestAction{
 		HeadersToSet: obj.GetHeaders(),
